@@ -143,12 +143,13 @@ func c14VisitJudge(args, real, drv json.RawMessage) *core.Verdict {
 		return core.Skip(r.BuildErr)
 	}
 	var d struct {
-		Res      any      `json:"res"`
-		Err      *string  `json:"err"`
-		Confined bool     `json:"confined"`
-		Writes   int      `json:"writes"`
-		Branches []string `json:"branches"`
-		Bad      string   `json:"bad"`
+		Res            any      `json:"res"`
+		Err            *string  `json:"err"`
+		Confined       bool     `json:"confined"`
+		Writes         int      `json:"writes"`
+		Branches       []string `json:"branches"`
+		SelectedAgrees bool     `json:"selectedAgrees"`
+		Bad            string   `json:"bad"`
 	}
 	if err := json.Unmarshal(drv, &d); err != nil || d.Bad != "" {
 		return core.Disagree("driver: " + string(drv[:min(len(drv), 300)]))
@@ -177,6 +178,9 @@ func c14VisitJudge(args, real, drv json.RawMessage) *core.Verdict {
 	}
 	if !d.Confined {
 		return core.Disagree("the visit model wrote below the frontier on this input")
+	}
+	if !d.SelectedAgrees {
+		return core.Disagree("the walk (Model/HeapVisit.lean) and the pure closure `selected` of the WithSelectedServices program visit different sets")
 	}
 	if r.Dup {
 		return core.Disagree("the real walk visited a service twice")
